@@ -235,7 +235,7 @@ def gen_filter(r, env, depth, st):
         if k < 0.05:
             st["tags"].append("bad-regex"); return r.choice(BAD_PATTERNS)
         if k < 0.07:
-            st["tags"].append("F15-pattern"); return r.choice(F15_PATTERNS)
+            st["tags"].append("pattern-valid-alone-xor-wrapped"); return r.choice(F15_PATTERNS)
         return r.choice(PATTERNS)
 
     def decimal(as_number_ok=True):
@@ -544,7 +544,8 @@ def main(run):
         rxr = g_list(["(%s, %s)" % (g_str(p), g_bool(rx[p][0])) for p in sorted(c["strings"])])
         jp = g_list(["(%s, %s)" % (g_str(k), g_jv(v)) for k, v in c["jp"].items()])
         tree = "None" if c["given"] is NOT_JSON else "(Some %s)" % g_jv(c["given"])
-        c["f15"] = sorted(p for p in c["regex_leaves"] if rx[p][0] != rx[p][1])
+        # F15 class (open half): a regular expression on its own that does not compile inside ^(?:..)$
+        c["f15"] = sorted(p for p in c["regex_leaves"] if rx[p][0] and not rx[p][1])
         terms.append("c18_case %s %s %s %s %s %s %s" % (g_str(c["s"]), jp, rxw, rxr, tree, g_bool(c["clean"]), impl))
         idx.append(i)
     # --- base64 engine against the model
@@ -598,9 +599,8 @@ def main(run):
         rep = {"definition_text": c["s"], "injected": c["tags"], "source": c["src"], "implementation_output": c["impl"],
                "replay_hint": "harness: {\"kind\":\"filter_codec\",\"s\":<definition_text>} ; CLI: tackler --api-filter-def <definition_text>"}
         if c["f15"]:
-            # F15 class: a pattern that is a regular expression alone xor inside the wrapper
-            raw_valid = [p for p in c["f15"] if rx[p][0]]
-            if (acc and not raw_valid) or (not acc and raw_valid):
+            # a valid pattern (e.g. verbose mode with a trailing comment) rejected because of the wrapper
+            if not acc:
                 f15_seen = True
             if not (bits & 1) and (bits & 4):
                 run.violation("correspondence broken on an F15-class definition (model and implementation differ)",
@@ -640,11 +640,11 @@ def main(run):
         if f15_seen:
             run.known_finding(findings["F15"]["what"])
         else:
-            run.violation("open finding F15 no longer reproduces (wrapper-only / verbose-mode patterns): update the model and known-findings",
+            run.violation("open finding F15 no longer reproduces (valid verbose-mode pattern rejected inside the wrapper): update the model and known-findings",
                           {"witness": "corpus/C18", "finding": "F15"}, found_input=False)
     elif f15_seen:
-        run.violation("a pattern is accepted that is not a regular expression on its own, or a valid pattern is rejected "
-                      "(patterns are only compiled inside ^(?:..)$)", {"patterns": F15_PATTERNS, "witness": "corpus/C18"})
+        run.violation("a valid pattern is rejected because it does not compile inside the ^(?:..)$ wrapper",
+                      {"patterns": F15_PATTERNS, "witness": "corpus/C18"})
     # --- behaviour: the given, the re-serialised and the armored definition select the same transactions
     toml = J.make_toml()
     breqs, bmeta = [], []
